@@ -65,6 +65,14 @@ fn erase_sender(t: &[ExecutedState]) -> Vec<J> {
         .collect()
 }
 
+/// the executed / failed states in trace order
+fn results_only(t: &[ExecutedState]) -> Vec<J> {
+    t.iter()
+        .filter(|s| !matches!(s, ExecutedState::Call(CallResult::RequestSentBy(_)) | ExecutedState::Canon(CanonResult::RequestSentBy(_)) | ExecutedState::Par(_)))
+        .map(|s| sort_json(&serde_json::to_value(s).unwrap_or(J::Null)))
+        .collect()
+}
+
 /// multiset of states, senders / generations / fold lores / par sizes erased
 fn weak_states(t: &[ExecutedState]) -> BTreeMap<String, usize> {
     let mut m = BTreeMap::new();
@@ -286,7 +294,15 @@ fn run_case(case: &J) -> J {
                 let only2: Vec<&String> = k2.iter().filter(|(k, n)| k1.get(*k).cloned().unwrap_or(0) < **n).map(|(k, _)| k).collect();
                 failures.push(fail("C08", step, format!("at the {}: knowledge differs between {} and {}: more in the first {:?}, more in the second {:?}", place, f.0, r.0, only1, only2), "knowledge-differs"));
             }
-            if stream_free {
+            // a grouping goes through the second observer, whose own pending requests become part of what it
+            // hands on; at a participant (which may not emit such a state itself) only the results are compared then
+            let through_observer = at_participant && (!f.0.starts_with("fold") || !r.0.starts_with("fold"));
+            if stream_free && through_observer {
+                if results_only(&f.1.trace) != results_only(&r.1.trace) && !reported[1] {
+                    reported[1] = true;
+                    failures.push(fail("C08", step, format!("at the {}: stream-free script, the executed / failed states differ between {} and {}", place, f.0, r.0), "trace-differs"));
+                }
+            } else if stream_free {
                 if erase_sender(&f.1.trace) != erase_sender(&r.1.trace) && !reported[1] {
                     reported[1] = true;
                     failures.push(fail("C08", step, format!("at the {}: stream-free script, traces differ beyond senders between {} and {} ({} vs {} states)", place, f.0, r.0, f.1.trace.len(), r.1.trace.len()), "trace-differs"));
